@@ -871,6 +871,58 @@ example : ∃ param : ℂ → ℂ × ℂ,
   ⟨fun _ => (3 / 5, 4 / 5), fun _ => ⟨by simp only [map_div₀, map_ofNat], by simp only [map_div₀, map_ofNat]⟩,
     fun _ => by norm_num⟩
 
+/-! ### Setter histories (round 6): a parameter of a used object is re-assigned, possibly changing its kind -/
+
+/-- **Setter histories are history-free.**  One object, any initial parameter (constant or function of
+wavelength), any sequence of uses and of assignments (each followed by `clear_cache()`) — constant → function,
+function → constant, function → another function, repeated wavelengths, in any order: the instance data
+`forward` runs with at every use is the *current* parameter evaluated at the wavelength of that use, i.e.
+what a freshly constructed object would use (`setSpec`).  (`setRun` is executed by op `vvset` on the event
+list the real object is driven through.) -/
+theorem setter_history_free {P : Type} [BEq K] [LawfulBEq K] (p0 : Param K P) (evs : List (Ev K P)) :
+    setRun p0 evs = setSpec p0 evs :=
+  setRunFrom_step evs (ObjSt.init p0) (by intro e he; cases he)
+
+/-- Deciding the kind of the parameter once, in the constructor (the seeded "achromatic ⇒ one shared
+instance" shortcut) breaks exactly this: built with a constant, later given a function of wavelength, the
+object evaluates the function at the dummy wavelength. -/
+theorem setter_frozen_kind_counterexample :
+    setRunFrozen (K := ℕ) 1 (.const 0) [.use 5, .set (.fn fun wl => wl), .use 5] = [0, 1] ∧
+    setRun (K := ℕ) (.const 0) [.use 5, .set (.fn fun wl => wl), .use 5] = [0, 5] := by
+  decide
+
+/-- A setter that does not invalidate the instances (no `clear_cache()`) breaks it too: the wavelength that
+was used before the assignment keeps running with the old parameter. -/
+theorem setter_no_clear_counterexample :
+    setRunNoClear (K := ℕ) (.fn fun wl => wl) [.use 5, .set (.const 0), .use 5, .use 7] = [5, 5, 0] ∧
+    setRun (K := ℕ) (.fn fun wl => wl) [.use 5, .set (.const 0), .use 5, .use 7] = [5, 0, 0] := by
+  decide
+
+/-- Together with the Jones algebra: the leak of one vector-vortex object at every use of any setter
+history is `cos²(δ/2)` of the retardance that is *current* at that use, at the wavelength of that use — zero
+wherever the current plate is half wave, whatever the object was constructed with. -/
+theorem vector_vortex_setter_history_leak [Field K] [CharZero K] [BEq K] [LawfulBEq K] (cj : K →+* K) (i c2 s2 : K)
+    (hi : i * i = -1) (hci : cj i = -i) (hc2 : cj c2 = c2) (hs2 : cj s2 = s2) (hf : c2 ^ 2 + s2 ^ 2 = 1)
+    (p0 : Param K (K × K)) (evs : List (Ev K (K × K)))
+    (hp : ∀ p ∈ setSpec p0 evs, cj p.1 = p.1 ∧ cj p.2 = p.2 ∧ p.1 ^ 2 + p.2 ^ 2 = 1) (plus : Bool) :
+    (setRun p0 evs).map (fun p => vvLeak cj i p.1 p.2 c2 s2 plus) = (setSpec p0 evs).map (fun p => p.1 ^ 2) := by
+  rw [setter_history_free]
+  apply List.map_congr_left
+  intro p hmem
+  obtain ⟨h1, h2, h3⟩ := hp p hmem
+  exact vector_vortex_leak_eq_cos_sq cj i _ _ c2 s2 hi hci h1 h2 hc2 hs2 h3 hf plus
+
+/-- The hypothesis on the history is satisfiable with a genuine change of kind (constant quarter-wave-like
+plate, then a function of wavelength). -/
+example : ∃ (p0 : Param ℂ (ℂ × ℂ)) (evs : List (Ev ℂ (ℂ × ℂ))), (setSpec p0 evs).length = 2 ∧
+    ∀ p ∈ setSpec p0 evs, (starRingEnd ℂ) p.1 = p.1 ∧ (starRingEnd ℂ) p.2 = p.2 ∧ p.1 ^ 2 + p.2 ^ 2 = 1 := by
+  refine ⟨.const (3 / 5, 4 / 5), [.use 1, .set (.fn fun _ => (0, 1)), .use 2], rfl, ?_⟩
+  intro p hmem
+  simp only [setSpec, Param.eval, List.mem_cons, List.not_mem_nil, or_false] at hmem
+  rcases hmem with h | h <;> subst h
+  · exact ⟨by simp only [map_div₀, map_ofNat], by simp only [map_div₀, map_ofNat], by norm_num⟩
+  · exact ⟨by simp, by simp, by norm_num⟩
+
 end VectorVortex
 
 end HcipyVerif.Coronagraph
